@@ -176,7 +176,8 @@ example : verdictOf bNone bG (mkRule true false false true false [.name "p".toLi
 /-! ### the `anything` aliases without the de-duplication hypothesis (verdict class)
 
 `_convert_aliases` removes from the subjects of an `import_anything` / `be_imported_by_anything` rule every name that is
-a strict dotted sub module of another subject (`dedupSubjects`), BEFORE a regex subject is expanded.  The theorems below
+a strict dotted sub module of another subject that is not a `sub modules of` filter (`dedupSubjects`; the restriction
+is the repair of F-C12a), BEFORE a regex subject is expanded.  The theorems below
 show that this never changes the verdict class (pass / fail / error kind), on every graph whose hierarchy edges cover
 the dotted nesting of its nodes (`HierClosed`, a property of every graph `buildGraph` constructs — see
 `hierClosed_buildGraph`) and for subject names that are nodes of the graph.  (The REPORT may differ in duplicate lines.) -/
